@@ -217,9 +217,14 @@ def run():
     from props import _matcher
     n_match = 0
     shapes = {1: [(1, 1)], 2: [(1, 2), (2, 1)], 3: [(1, 3), (3, 1)], 4: [(2, 2)], 6: [(2, 3), (3, 2)]}
-    for ch in scheds:
+    cap_scripted = 2500 if t == "quick" else 10 ** 9
+    from harness.common import digest
+    mixed = sorted(scheds, key=lambda c: digest(json.dumps(c)))       # a fixed pseudo-random order: every shape gets its share
+    for ch in mixed:
         for (nn, mm) in shapes.get(len(ch), []):
             for first in (False, True):
+                if n_match >= cap_scripted:
+                    break
                 sub = _matcher.bounded_trace(nn, mm, ch, first)
                 n_match += 1
                 key = json.dumps(sub, sort_keys=True)
@@ -231,7 +236,37 @@ def run():
                     d["n"] += 1
                     d["cls"].add("WeightedBipartiteMatcher")
     chk.extra["scripted_matcher_histories"] = n_match
-    _matcher.check(chk, t, rng("c04-matcher"), scheds)
+    _matcher.check(chk, t, rng("c04-matcher"), mixed)
+    # the multiset edit over scripted elements (L2 model: spec/MultiSet.tla, bound by MultiSetTrace.tla)
+    from props import _mset
+    n_mset = 0
+    parts_bad = 0
+    by_len = {}
+    for name, shp in _mset.SHAPES.items():
+        by_len.setdefault(shp[0] * shp[1], []).append(name)
+    for ch in mixed:
+        for shape in by_len.get(len(ch), []):
+            for first in (False, True):
+                if n_mset >= cap_scripted:
+                    break
+                sub, parts = _mset.quiescent(shape, ch, first)
+                n_mset += 1
+                if parts is not None and not (parts["reported"][0] == parts["reported"][1] == parts["sum"]):
+                    parts_bad += 1
+                    if len(chk.drift) < 10:
+                        chk.drift.append("MultiSetEdit %s over scripted elements %s reports %s but lists edits costing %d (C03's business; "
+                                         "lead only here)" % (shape, json.dumps(ch)[:200], parts["reported"], parts["sum"]))
+                key = json.dumps(sub, sort_keys=True)
+                d = distinct.get(key)
+                if d is None:
+                    distinct[key] = {"sub": sub, "cls": {"MultiSetEdit"}, "n": 1,
+                                     "case": ("multiset", ch, shape, first), "active": True}
+                else:
+                    d["n"] += 1
+                    d["cls"].add("MultiSetEdit")
+    chk.extra["scripted_multiset_histories"] = n_mset
+    chk.extra["scripted_multiset_sum_of_parts_disagreements"] = parts_bad
+    _mset.check(chk, t, rng("c04-mset"), mixed)
     items = list(distinct.values())
     total_objects = sum(d["n"] for d in items)
     chk.extra["objects_observed"] = total_objects
@@ -315,6 +350,10 @@ def replay(path):
     if rp["case"][0] == "search":
         corpus._quiet_env()
         res = {"subs": [("IterativeTighteningSearch", search_history(rp["case"][1], rp["case"][2]))]}
+    elif rp["case"][0] == "multiset":
+        corpus._quiet_env()
+        from props import _mset
+        res = {"subs": [("MultiSetEdit", _mset.quiescent(rp["case"][2], rp["case"][1], rp["case"][3])[0])]}
     elif rp["case"][0] == "matcher":
         corpus._quiet_env()
         from props import _matcher
